@@ -380,14 +380,13 @@ def main(tier):
     rep.trusted = ['clang IR + sroa', 'tools/llir.py provenance/dependency analysis', 'RFC 1950/1952 field table in props/c19.py']
     mod = llir.library('default')
     S = summaries(mod)
-    check_size_first(rep, mod, S)
-    check_endian(rep, mod)
-    check_consts(rep, mod)
-    check_retcodes(rep, mod)
-    check_field_pairing(rep, mod)
-    check_resume(rep, mod)
-    check_magic(rep, mod)
+    rep.attempt(check_size_first, rep, mod, S)
+    rep.attempt(check_endian, rep, mod)
+    rep.attempt(check_consts, rep, mod)
+    rep.attempt(check_retcodes, rep, mod)
+    rep.attempt(check_field_pairing, rep, mod)
+    rep.attempt(check_resume, rep, mod)
+    rep.attempt(check_magic, rep, mod)
     import acct
-    acct.check(rep, 'z', 4, field_offsets('struct isal_zstream', ['next_in', 'avail_in', 'total_in', 'next_out', 'avail_out', 'total_out']),
-               field_offsets('struct inflate_state', ['next_in', 'avail_in', 'next_out', 'avail_out', 'total_out']), mod, only={'isal_write_gzip_header', 'isal_write_zlib_header'}, suffix='HDR-WRITERS')
+    rep.attempt(acct.check, rep, 'z', 4, field_offsets('struct isal_zstream', ['next_in', 'avail_in', 'total_in', 'next_out', 'avail_out', 'total_out']), field_offsets('struct inflate_state', ['next_in', 'avail_in', 'next_out', 'avail_out', 'total_out']), mod, only={'isal_write_gzip_header', 'isal_write_zlib_header'}, suffix='HDR-WRITERS')
     return rep.finish()
